@@ -127,6 +127,10 @@ def judge(o, fi, im, bkg, rms, seed, flood, label):
             o.violate('empty_island', dict(wit, island_index=k, bounding_box=list(box)))
             ok = False
             continue
+        if any(not (0 <= p[0] < im.shape[0] and 0 <= p[1] < im.shape[1]) for p in pix):
+            o.violate('island_outside_image', dict(wit, island_index=k, bounding_box=list(box)))
+            ok = False
+            continue
         tb = floodfill.tight_box(pix)
         if (box[0], box[1]) != tb[0] or (box[2], box[3]) != tb[1]:
             o.violate('box_not_tight', dict(wit, island_index=k, bounding_box=list(box), tight=[list(tb[0]), list(tb[1])]),
@@ -621,10 +625,6 @@ def _finder_case(o, case, distinct):
             (r0, r1), (c0, c1) = floodfill.tight_box(g)
             if (snr[r0:r1, c0:c1] > inner).any():
                 o.count('finder_unseeded_group_with_seed_pixel_in_its_box')
-        for g in want:
-            (r0, r1), (c0, c1) = floodfill.tight_box(g)
-            if any((r0 <= p[0] < r1 and c0 <= p[1] < c1) for u in unseeded for p in u):
-                o.count('finder_island_box_contains_unseeded_group')
     good_nums = set()
     for num, pix_set, ishape, offs in calls:
         o.n_eval += 1
